@@ -2353,3 +2353,189 @@ Proof.
       apply msg_wf_plain; cbn; [reflexivity|discriminate|discriminate|discriminate]. }
   destruct (r_state r); auto.
 Qed.
+
+(* the next call of a contract-abiding application cannot panic at 1422 *)
+Theorem exec_22 a n o :
+  Good a n -> TK (nlog n) -> app_ok a o -> peer_ok o -> idx_margin n o ->
+  exec n o = Panic s1422 -> False.
+Proof.
+  intros G Ht Ha Hp Hm E.
+  destruct (is_setstore_dec o) as [[m ->]|Hns]; [cbn [exec] in E; discriminate|].
+  destruct (side_ok a n o G Ha Hp Hm Hns) as [[W _] _].
+  pose proof (Good_NLI a n G) as HI. unfold NLI in HI. unfold nlog in Ht.
+  assert (Hstep : forall m, msg_wf (nlast n) m -> step (rn_raft n) m = Panic s1422 -> False).
+  { intros m Wm Hs. exact (step_22 false _ _ HI Wm Ht Hs). }
+  assert (Hplain : forall m, elect_type (m_type m) = false -> m_type m <> MsgPropose ->
+            m_type m <> MsgAppend -> m_type m <> MsgSnapshot -> step (rn_raft n) m = Panic s1422 -> False).
+  { intros m A B C0 D. apply Hstep. apply msg_wf_plain; assumption. }
+  destruct o; try (exfalso; eapply Hns; reflexivity); cbn [exec op_wf] in E, W; unfold quiet, quiet1 in E;
+    apply bind_panic in E; destruct E as [E|(x & _ & E)]; try discriminate E.
+  - unfold rn_step, lift2 in E. destruct (is_local_msg _); [discriminate|].
+    match type of E with (if ?c then _ else _) = _ => destruct c end; [|discriminate].
+    apply bind_panic in E. destruct E as [E|(y & _ & E)]; [|discriminate]. exact (Hstep m W E).
+  - unfold rn_tick in E. apply bind_panic in E. destruct E as [E|(y & _ & E)]; [|discriminate].
+    exact (tick_22 false _ HI W Ht E).
+  - unfold rn_campaign, lift2 in E. apply bind_panic in E. destruct E as [E|(y & _ & E)]; [|discriminate].
+    eapply Hstep; [|exact E]. unfold msg_wf. cbn. splits; try (intros C; discriminate). intros _. exact W.
+  - unfold rn_propose, lift2 in E. apply bind_panic in E. destruct E as [E|(y & _ & E)]; [|discriminate].
+    eapply Hstep; [|exact E]. unfold msg_wf. cbn. splits; try (intros C; discriminate). intros _. exact W.
+  - unfold rn_propose_conf_change, lift2 in E. apply bind_panic in E. destruct E as [E|(y & _ & E)]; [|discriminate].
+    eapply Hstep; [|exact E]. unfold msg_wf. cbn. splits; try (intros C; discriminate). intros _. exact W.
+  - no22 rn_apply_conf_change_sites_explicit E.
+  - no22 rn_ping_sites_explicit E.
+  - no22 rn_ready_sites_explicit E.
+  - no22 rn_advance_sites_explicit E.
+  - no22 rn_advance_append_sites_explicit E.
+  - no22 rn_advance_append_async_sites_explicit E.
+  - no22 rn_on_persist_ready_sites_explicit E.
+  - no22 rn_advance_apply_sites_explicit E.
+  - no22 rn_advance_apply_to_sites_explicit E.
+  - unfold rn_report_unreachable in E. apply bind_panic in E. destruct E as [E|(y & _ & E)]; [|discriminate].
+    eapply Hplain; [| | | |exact E]; cbn; (reflexivity || discriminate).
+  - unfold rn_report_snapshot in E. apply bind_panic in E. destruct E as [E|(y & _ & E)]; [|discriminate].
+    eapply Hplain; [| | | |exact E]; cbn; (reflexivity || discriminate).
+  - no22 rn_request_snapshot_sites_explicit E.
+  - unfold rn_transfer_leader in E. apply bind_panic in E. destruct E as [E|(y & _ & E)]; [|discriminate].
+    eapply Hplain; [| | | |exact E]; cbn; (reflexivity || discriminate).
+  - unfold rn_read_index in E. apply bind_panic in E. destruct E as [E|(y & _ & E)]; [|discriminate].
+    eapply Hplain; [| | | |exact E]; cbn; (reflexivity || discriminate).
+Qed.
+
+(* the term at the commit index stays known along a contract-abiding trace *)
+Lemma append_snap_index m ents m' : append m ents = Ok m' -> snap_index m' = snap_index m.
+Proof.
+  unfold append. intros H. destruct ents as [|n0 t]; [inversion H; reflexivity|].
+  inv_bind H. destruct (_ <? _); [discriminate|]. destruct (_ =? _); [discriminate|].
+  destruct (_ <? _); [discriminate|]. destruct (_ <? _)%nat; [discriminate|]. inversion H; reflexivity.
+Qed.
+
+Lemma TK_store l m :
+  (u_snapshot (unst l) = None ->
+   first_of m - 1 = snap_index m \/ first_of m <= committed l) -> TK (set_store l m).
+Proof.
+  intros H. unfold TK. cbn [set_store store unst committed].
+  destruct (u_snapshot (unst l)); [exact I|]. apply H. reflexivity.
+Qed.
+
+Theorem contract_step_tk a n o ot a' n' :
+  Good a n -> TK (nlog n) -> app_next a n o ot a' -> peer_ok o -> idx_margin n o ->
+  exec n o = Ok (n', ot) -> TK (nlog n').
+Proof.
+  intros G Ht Hn Hp Hm E.
+  pose proof (Good_NLI a n G) as HI.
+  assert (Hadv : forall rd n1 n2, a_phase a = Writing rd WDone -> commit_ready n rd = Ok n1 ->
+            (TK (nlog n1)) /\
+            (rn_on_persist_ready n1 (rn_max_number n1) = Ok n2 -> TK (nlog n2))).
+  { intros rd n1 n2 Eph H1.
+    destruct (commit_ready_done a n rd n1 G Eph H1) as (A1 & B1 & (C1 & C2 & C3) & D1 & E1 & F1 & R1 & M1 & S1).
+    assert (T1 : TK (nlog n1)).
+    { unfold TK. rewrite E1, B1, C1.
+      pose proof (g_phase a n G) as Hph. unfold phase_ok in Hph. rewrite Eph in Hph.
+      destruct Hph as (_ & _ & _ & _ & _ & _ & Hsw & _).
+      unfold TK in Ht. unfold snap_written in Hsw.
+      destruct (u_snapshot (unst (nlog n))) as [s|]; [|exact Ht].
+      destruct Hsw as (W1 & _ & W3 & _). left. lia. }
+    split; [exact T1|]. intros H2.
+    destruct (on_persist_ready_rel _ _ _ H2) as ((L & _) & _). eapply lrel0_TK; eassumption. }
+  destruct Hn.
+  - destruct (idle_exec_rel n o n' ot H E) as ((L & _) & _). eapply lrel0_TK; eassumption.
+  - cbn [exec] in E. rewrite H0 in E. cbn [bind fst snd] in E. injection E as En Eo. subst n1.
+    rewrite (rn_ready_log _ _ _ H0). exact Ht.
+  - cbn [exec] in E. inversion E; subst n' ot. change (TK (set_store (nlog n) m)). apply TK_store. intros Es.
+    rewrite (g_store a n G) in H. destruct H as (A & B & _).
+    assert (Hf : first_of m = first_of (store (nlog n))) by (unfold first_of; rewrite A, B; reflexivity).
+    unfold TK in Ht. rewrite Es in Ht. rewrite Hf, B. exact Ht.
+  - cbn [exec] in E. inversion E; subst n' ot. change (TK (set_store (nlog n) m)). apply TK_store. intros Es.
+    pose proof (g_phase a n G) as Hph. unfold phase_ok in Hph. rewrite H in Hph.
+    destruct Hph as (_ & _ & _ & _ & _ & _ & Hne). congruence.
+  - cbn [exec] in E. inversion E; subst n' ot. change (TK (set_store (nlog n) m)). apply TK_store. intros Es.
+    rewrite (g_store a n G) in H0.
+    pose proof (g_phase a n G) as Hph. unfold phase_ok in Hph. rewrite H in Hph.
+    destruct Hph as (_ & H2 & _). rewrite H2 in H0.
+    destruct (store_append_unstable_ok false (nlog n) HI Es) as (st2 & Ha2 & _ & _ & Hf & _).
+    rewrite H0 in Ha2. inversion Ha2; subst st2.
+    rewrite Hf, (append_snap_index _ _ _ H0). unfold TK in Ht. rewrite Es in Ht. exact Ht.
+  - cbn [exec] in E. inversion E; subst n' ot. change (TK (set_store (nlog n) m)). apply TK_store. intros Es.
+    rewrite (g_store a n G) in H0, H2. rewrite (g_applied a n G) in H1.
+    destruct (N.le_gt_cases ci (first_of (store (nlog n)))) as [Hle|Hgt].
+    + rewrite (store_compact_noop false (nlog n) ci HI Hle) in H0. inversion H0; subst m.
+      unfold TK in Ht. rewrite Es in Ht. exact Ht.
+    + pose proof (g_app_le a n G). pose proof (g_csi_stable a n G).
+      destruct (store_compact_ok (nlog n) ci HI Es Hgt H1 ltac:(lia) H2) as (st2 & Hc2 & _ & _ & Hf).
+      rewrite H0 in Hc2. inversion Hc2; subst st2. right. rewrite Hf.
+      pose proof (ri_applied false _ HI eq_refl). unfold nlog in *. lia.
+  - (* advance *)
+    cbn [exec] in E. inv_bind E. destruct x as [n2 lr2]. cbn [fst snd] in E. inversion E; subst n' ot. clear E.
+    unfold rn_advance in Hx. inv_bind Hx. destruct x as [n1 lr1]. cbn [fst snd] in Hx.
+    inv_bind Hx. inversion Hx; subst x lr2. clear Hx.
+    destruct (rn_advance_append_inv _ _ _ _ Hx0) as (m1 & m2 & m3 & lr3 & H1 & H2 & H3 & _ & _ & _ & _ & Hn' & _).
+    destruct (Hadv rd m1 m2 H H1) as [_ T2]. specialize (T2 H2).
+    assert (T1 : TK (nlog n1)).
+    { subst n1. change (TK (nlog m3)). rewrite (gen_light_ready_log _ _ _ H3). exact T2. }
+    unfold rn_advance_apply_to, lift in Hx1. inv_bind Hx1. inversion Hx1; subst n2.
+    destruct (commit_apply_rel (fun _ => False) _ _ _ Hx) as (L & _). unfold nlog. cbn.
+    eapply lrel0_TK; [exact L|exact T1].
+  - cbn [exec] in E. inv_bind E. destruct x as [n1 lr1]. cbn [fst snd] in E. inversion E; subst n' ot. clear E.
+    destruct (rn_advance_append_inv _ _ _ _ Hx) as (m1 & m2 & m3 & lr3 & H1 & H2 & H3 & _ & _ & _ & _ & Hn' & _).
+    destruct (Hadv rd m1 m2 H H1) as [_ T2]. specialize (T2 H2).
+    subst n1. change (TK (nlog m3)). rewrite (gen_light_ready_log _ _ _ H3). exact T2.
+  - cbn [exec] in E. unfold quiet1 in E. inv_bind E. inversion E; subst.
+    unfold rn_advance_append_async in Hx. exact (proj1 (Hadv rd n' n' H Hx)).
+  - cbn [exec] in E. unfold quiet1 in E. inv_bind E. inversion E; subst.
+    destruct (on_persist_ready_rel _ _ _ Hx) as ((L & _) & _). eapply lrel0_TK; eassumption.
+  - cbn [exec] in E. unfold quiet1 in E. inv_bind E. inversion E; subst.
+    unfold rn_advance_apply, rn_advance_apply_to, lift in Hx. inv_bind Hx. inversion Hx; subst.
+    destruct (commit_apply_rel (fun _ => False) _ _ _ Hx0) as (L & _). unfold nlog in *. cbn.
+    eapply lrel0_TK; eassumption.
+  - cbn [exec] in E. unfold quiet1 in E. inv_bind E. inversion E; subst.
+    unfold rn_advance_apply_to, lift in Hx. inv_bind Hx. inversion Hx; subst.
+    destruct (commit_apply_rel (fun _ => False) _ _ _ Hx0) as (L & _). unfold nlog in *. cbn.
+    eapply lrel0_TK; eassumption.
+Qed.
+
+Theorem crun_tk a n a' n' : crun a n a' n' -> Good a n -> TK (nlog n) -> Good a' n' /\ TK (nlog n').
+Proof.
+  intros R. induction R as [|a n o n1 ot a1 a' n' Hn Hp Hm E R IH]; intros G Ht; [split; assumption|].
+  apply IH; [eapply contract_step; eassumption|eapply contract_step_tk; eassumption].
+Qed.
+
+(* the start: the term at the initial commit index is known *)
+Definition init_tk (st : MemStorage.mem) (n0 : rawnode) : Prop :=
+  first_of st - 1 = snap_index st \/ first_of st <= committed (nlog n0).
+
+Lemma init_TK c st sa dr n0 :
+  rn_new c st sa dr = Ok (inr n0) -> init_ok c st n0 -> init_tk st n0 -> TK (nlog n0).
+Proof.
+  intros H Hi Ht. pose proof (init_good _ _ _ _ _ H Hi) as G. destruct Hi as (Hs & Hq & _).
+  destruct (rn_new_pres _ _ _ _ _ H Hs Hq) as (_ & _ & Hst).
+  unfold rn_new in H. destruct (c_id c =? 0); [discriminate|].
+  inv_bind H. destruct x as [e|r]; inversion H; subst n0. clear H.
+  destruct (raft_new_shape _ _ _ _ _ Hx Hs) as (Eu & _).
+  unfold TK, nlog in *. cbn [rn_raft] in *. rewrite Eu. cbn [u_new u_snapshot]. rewrite Hst. exact Ht.
+Qed.
+
+(* (3') along a contract-abiding trace no call panics at a node-local site, a log/storage
+   shape site, or at 1422 *)
+Theorem contract_no_panic_sites c st sa dr n0 a n o s :
+  rn_new c st sa dr = Ok (inr n0) -> init_ok c st n0 -> init_tk st n0 ->
+  crun (init_app c st) n0 a n ->
+  app_ok a o -> peer_ok o -> idx_margin n o -> exec n o = Panic s ->
+  ~ In s (site_l_commit_info :: all_sites).
+Proof.
+  intros H Hi Htk R Ha Hp Hm E Hin.
+  destruct (crun_tk _ _ _ _ R (init_good _ _ _ _ _ H Hi) (init_TK _ _ _ _ _ H Hi Htk)) as [G Ht].
+  destruct Hin as [<-|Hin].
+  - exact (exec_22 a n o G Ht Ha Hp Hm E).
+  - exact (contract_next_no_panic a n o s G Ha Hp Hm E Hin).
+Qed.
+
+Lemma TK_def l :
+  TK l <-> match u_snapshot (unst l) with
+           | Some _ => True
+           | None => first_of (store l) - 1 = snap_index (store l) \/ first_of (store l) <= committed l
+           end.
+Proof. reflexivity. Qed.
+
+Lemma init_tk_def st n0 :
+  init_tk st n0 <-> first_of st - 1 = snap_index st \/ first_of st <= committed (r_log (rn_raft n0)).
+Proof. reflexivity. Qed.
